@@ -11,5 +11,7 @@ Tables (identical names and columns in both ORMs)
   vt_parent(id, n INT NULL, name TEXT NULL, boss_id -> vt_parent NULL)
   vt_child(id, parent_id -> vt_parent NULL, k INT NULL, label TEXT NULL, owner_id -> vt_parent NULL)
   vt_tag(id, t TEXT NULL)          vt_parent_tags(id, parent_id -> vt_parent, tag_id -> vt_tag)   many-to-many
+  vt_note(id, text TEXT NULL, parent_id -> vt_parent NULL, child_id -> vt_child NULL)   `notes` exists on Parent AND Child
+  sa2.py (SQLAlchemy only): vt2_ticket(owner -> vt2_user, project -> vt2_project NULL), vt2_project(owner -> vt2_team NOT NULL)
 Collections: Parent.children (Child.parent), Parent.owned (Child.owner), Parent.minions (Parent.boss), Parent.tags.
 """
